@@ -390,11 +390,19 @@ def resolve_globs(glob_path: str, root_path: str = None) -> list[str]:
         # "." names the root itself, which pathlib does not accept as a pattern
         if os.path.normpath(glob_path) == ".":
             return [str(Path(root_path).resolve())]
-        return [str(p.resolve()) for p in Path(root_path).resolve().glob(glob_path)]
+        # (a link that leads nowhere is a nonexistent path)
+        return [
+            str(p.resolve())
+            for p in Path(root_path).resolve().glob(glob_path)
+            if p.exists()
+        ]
     p = Path(glob_path).resolve()
+    # A path that exists is itself, whatever characters its name is made of
+    if p.exists():
+        return [str(p)]
     root = p.anchor  # drive letter + root path
     rel = str(p.relative_to(root))  # contains glob pattern
-    return [str(p.resolve()) for p in Path(root).glob(rel)]
+    return [str(p.resolve()) for p in Path(root).glob(rel) if p.exists()]
 
 
 def only_dirs(paths: list[str]) -> list[str]:
